@@ -69,6 +69,13 @@ def c11_atoms(tier):
         out += [("python_full_version", "==", v), ("python_full_version", "!=", v)]
     for lst in ["3.8", "3.8, 3.9", "2.7, 3.10, 3.11", "3.7,3.8"]:
         out += [("python_version", "in", lst), ("python_version", "not in", lst)]
+    # every list of up to four entries WITH repetition, in every order (seed C11k: a "consecutive minors" fast path that
+    # compares the span with the number of entries, not of distinct entries -- `"3.6, 3.8, 3.8"` read as 3.6..3.8)
+    entries = ["3.6", "3.8", "3.9", "2.7"]
+    for k in (2, 3, 4):
+        for combo in itertools.product(entries, repeat=k):
+            lst = ", ".join(combo)
+            out += [("python_version", "in", lst), ("python_version", "not in", lst)]
     return out
 
 
